@@ -1,7 +1,7 @@
 (** * C15 - What is POSTed is what is GET back; malformed payloads are rejected, not fatal.
     Only statements, each closed by [exact <lemma>] (or a 2-3 line wrapper), with [Print Assumptions]. *)
 From Coq Require Import List String NArith Bool Lia.
-From DH Require Import Model.Parser Proofs.ParserProofs Proofs.ParserFuel Proofs.ParserPanic Check.C15Check Proofs.C15CheckProofs.
+From DH Require Import Model.Parser Proofs.ParserProofs Proofs.ParserFuel Proofs.ParserPanic Proofs.ParserProxy Check.C15Check Proofs.C15CheckProofs.
 Import ListNotations.
 Open Scope string_scope.
 
@@ -179,9 +179,53 @@ Theorem C15_refuted_structure :
 Proof. exact (conj refuted_props_scalar (conj refuted_trailing refuted_txn_object)). Qed.
 Print Assumptions C15_refuted_structure.
 
+(** Every entry point that parses a payload.  The page reader of a proxy dataset (StreamChangesRaw /
+    StreamChanges / StreamEntitiesRaw / StreamEntities): its result is an error whenever ParseStream
+    fails - wherever the continuation element sits -, a token is returned only after a successful
+    parse, the callback gets exactly the non-continuation entities ParseStream emitted, and with
+    checked assertions (parser and token) it never panics. *)
+Theorem C15_proxy_error_propagates : forall v c fuel eof ts,
+  (snd (fst (parse_stream v fuel eof ts)) = OErr -> fst (proxy_page v c fuel eof ts) = Err) /\
+  (forall s, fst (proxy_page v c fuel eof ts) = Ok s -> snd (fst (parse_stream v fuel eof ts)) = OOk) /\
+  snd (proxy_page v c fuel eof ts) = filter (fun e => negb (is_cont_ent e)) (fst (fst (parse_stream v fuel eof ts))).
+Proof.
+  intros. split; [apply proxy_err_propagates|]. split; [intros s; apply proxy_ok_needs_ok|apply proxy_passes_emitted].
+Qed.
+Print Assumptions C15_proxy_error_propagates.
+Theorem C15_proxy_total : forall v fuel eof ts, chk_types v = true ->
+  fst (proxy_page v true fuel eof ts) <> Panic.
+Proof. exact proxy_total. Qed.
+Print Assumptions C15_proxy_total.
+Theorem C15_refuted_proxy_token :
+  fst (proxy_page fixed false 40 true w_cont_num) = Panic /\ fst (proxy_page fixed false 40 true w_cont_none) = Panic
+  /\ fst (proxy_page fixed true 40 true w_cont_num) = Err.
+Proof. exact refuted_proxy_token. Qed.
+Print Assumptions C15_refuted_proxy_token.
+
+(** The namespace table behind the identifiers: insert-then-persist keeps persisted = in-memory over
+    ALL sequences of assertions and restarts, so a restart changes nothing and a prefix, once
+    assigned, denotes the same expansion for ever - what the hub wrote before a restart parses back
+    to the same ids afterwards.  Persist-before-insert loses the last namespace at a restart and
+    hands its prefix to the next new one. *)
+Theorem C15_namespace_table_persistent : forall ops t, ns_consistent t ->
+  ns_consistent (ns_run false t ops) /\ ns_step false (ns_run false t ops) NsRestart = ns_run false t ops /\
+  forall e i, index_of e (nt_mem t) = Some i -> index_of e (nt_mem (ns_run false t ops)) = Some i.
+Proof.
+  intros ops t H. pose proof (ns_run_consistent ops t H) as C.
+  split; [exact C|]. split; [now apply ns_restart_noop|]. intros e i. now apply ns_prefix_permanent.
+Qed.
+Print Assumptions C15_namespace_table_persistent.
+Theorem C15_refuted_persist_before_insert :
+  let t0 := {| nt_mem := ["core"]; nt_disk := ["core"] |} in
+  index_of "b" (nt_mem (ns_run true t0 [NsAssert "b"])) = Some 1%nat
+  /\ index_of "b" (nt_mem (ns_run true t0 [NsAssert "b"; NsRestart])) = None
+  /\ index_of "c" (nt_mem (ns_run true t0 [NsAssert "b"; NsRestart; NsAssert "c"])) = Some 1%nat.
+Proof. exact ns_persist_first_refuted. Qed.
+Print Assumptions C15_refuted_persist_before_insert.
+
 (** tie to the correspondence check: the repaired model's verdict on a case IS the executable
     spec's verdict; a case satisfying the spec is not a panic *)
-Theorem C15_agree_implies_spec : forall c, agree fixed c = true -> spec_ok c = true.
+Theorem C15_agree_implies_spec : forall c, agree fixed true c = true -> spec_ok c = true.
 Proof. exact agree_fixed_spec. Qed.
 Print Assumptions C15_agree_implies_spec.
 Theorem C15_spec_excludes_panic : forall c, spec_ok c = true -> o_outcome c <> 2%N.
@@ -213,3 +257,5 @@ Example C15_nonvacuous_fuel :
   /\ parse_stream current 67 true (ser_stream ex_ctx [(ex_ent, 7%N)] "MQ==")
      = ([clean_ent ex_ent; cont_ent "MQ=="], OOk, ex_ctx).
 Proof. vm_compute. split; reflexivity. Qed.
+Example C15_nonvacuous_nstab : ns_consistent {| nt_mem := ["core"]; nt_disk := ["core"] |}.
+Proof. reflexivity. Qed.
